@@ -55,8 +55,9 @@ fn statement_dependencies(statement: &Statement) -> BTreeSet<usize> {
             deps
         }
 
-        S::ExternalDefinition { .. }
-        | S::Break(..)
+        S::ExternalDefinition { ty, .. } => ty_dependency(ty),
+
+        S::Break(..)
         | S::Continue(..)
         | S::Unreachable(..) => BTreeSet::new(),
     }
@@ -170,10 +171,13 @@ fn dependencies(expression: &Expression) -> BTreeSet<usize> {
         // in a nice list, so we can easily mark them as "strange" once they're read
         // and not called imediately. And to reason about "non-strange" functions is
         // quite easy! :D
-        E::Function { body, .. } => body
+        E::Function { body, params, ret, .. } => body
             .iter()
             .map(|stmt| statement_dependencies(stmt))
             .flatten()
+            // The types in the signature have to be known as well.
+            .chain(params.iter().map(|(_, _, _, ty)| ty_dependency(ty)).flatten())
+            .chain(ty_dependency(ret))
             .collect(),
 
         E::Blob { blob, fields, .. } => fields
